@@ -5,7 +5,14 @@ import "math/big"
 // Rng is a splitmix64 PRNG; every random choice of a run derives from one seed.
 type Rng struct{ s uint64 }
 
-func NewRng(seed uint64) *Rng { return &Rng{s: seed*0x9E3779B97F4A7C15 + 0x1234567} }
+func NewRng(seed uint64) *Rng {
+	// mix the seed so that neighbouring seeds give unrelated streams
+	z := seed ^ 0x5DEECE66D1234567
+	z = (z ^ (z >> 33)) * 0xFF51AFD7ED558CCD
+	z = (z ^ (z >> 33)) * 0xC4CEB9FE1A85EC53
+	z ^= z >> 33
+	return &Rng{s: z}
+}
 
 func (r *Rng) U64() uint64 {
 	r.s += 0x9E3779B97F4A7C15
